@@ -21,8 +21,9 @@ static std::string hexs(mpz_srcptr z) { char *s = mpz_get_str(NULL, 16, z); std:
 // H(m, r) exactly as a Fiat-Shamir hash over the list [m; r]: hex digits, '|' after every argument
 static void hash2(mpz_ptr out, mpz_srcptr m, mpz_srcptr r) { std::string in = hexs(m) + "|" + hexs(r) + "|"; tmcg_mpz_shash(out, in); }
 
-// textbook Schnorr with plain GMP: c == H(m, g^(s mod q) * y^((-c) mod q) mod p); rv receives the recomputed nonce
+// textbook Schnorr with plain GMP: 0 <= s < q and c == H(m, g^(s mod q) * y^((-c) mod q) mod p); rv receives the recomputed nonce
 static bool schnorr_textbook(const Grp &G, mpz_srcptr y, mpz_srcptr m, mpz_srcptr c, mpz_srcptr s, mpz_ptr rv) {
+	if (mpz_sgn(s) < 0 || mpz_cmp(s, G.q) >= 0) { mpz_set_ui(rv, 0); return false; }
 	mpz_t e1, e2, a, b, h; mpz_init(e1); mpz_init(e2); mpz_init(a); mpz_init(b); mpz_init(h);
 	mpz_mod(e1, s, G.q); mpz_neg(e2, c); mpz_mod(e2, e2, G.q);
 	mpz_powm(a, G.g, e1, G.p); mpz_powm(b, y, e2, G.p); mpz_mul(rv, a, b); mpz_mod(rv, rv, G.p);
@@ -72,7 +73,7 @@ static void nts_case(GennaroJareckiKrawczykRabinNTS &nts, const Grp &G, mpz_srcp
 	std::string ctx = std::string(cls) + " p=" + hx(G.p) + " q=" + hx(G.q) + " g=" + hx(G.g) + " y=" + hx(y) + " m=" + hx(m) + " c=" + hx(c) + " s=" + hx(s) + " library=" + verdict + " textbook=" + (tb ? "accept" : "reject");
 	if (verdict == "accept" && !tb)
 		propfail(oversize ? "nts-verify-oversize-s" : "nts-verify-accepts-invalid", "NTS::Verify accepts a triple the Schnorr equation rejects: " + ctx);
-	if (verdict != "accept" && tb && !oversize)
+	if (verdict != "accept" && tb)
 		propfail("nts-verify-rejects-valid", "NTS::Verify refuses a triple the Schnorr equation accepts: " + ctx);
 	mpz_clear(rv); mpz_clear(as);
 }
@@ -131,6 +132,7 @@ static void verifier_part(const Grp &G, bool T) {
 		for (int kk = 0; kk < NCAT; kk++) { cat_value(kk, v, s, G); nts_case(nts, G, y, m, c, v, "s-catalogue"); }
 		for (int kk = 0; kk < NCAT; kk++) { if (kk >= 12 && kk <= 13) continue; cat_value(kk, v, c, G); nts_case(nts, G, y, m, v, s, "c-catalogue"); }
 		for (int kk = 0; kk < 10; kk++) { cat_value(kk, v, m, G); nts_case(nts, G, y, v, c, s, "m-catalogue"); }
+		for (int kq = 1; kq <= 3; kq++) { mpz_mul_ui(v, G.q, kq); mpz_add(v, v, s); nts_case(nts, G, y, m, c, v, "s-congruent"); }
 		// the nonce chosen as a fixed value: c = H(m, v) for v in {0, 1, p-1} with matching / oversize s
 		for (int nv = 0; nv < 3; nv++) {
 			if (nv == 0) mpz_set_ui(v, 0); else if (nv == 1) mpz_set_ui(v, 1); else mpz_sub_ui(v, G.p, 1);
@@ -149,6 +151,14 @@ static void verifier_part(const Grp &G, bool T) {
 		for (int kk = 0; kk < NCAT; kk++) { cat_value(kk, v, r, G); dss_case(dss, G, y, m, v, s, "r-catalogue"); }
 		for (int kk = 0; kk < NCAT; kk++) { cat_value(kk, v, s, G); dss_case(dss, G, y, m, r, v, "s-catalogue"); }
 		for (int kk = 0; kk < NCAT; kk++) { cat_value(kk, v, m, G); dss_case(dss, G, y, v, r, s, "m-catalogue"); }
+		// values congruent to the valid signature: s + k q for k = 1, 2, 3 and the largest k with s + k q < p; r + q; both
+		for (int kq = 1; kq <= 4; kq++) {
+			if (kq < 4) { mpz_mul_ui(v, G.q, kq); mpz_add(v, v, s); } else { mpz_sub(v, G.p, s); mpz_sub_ui(v, v, 1); mpz_fdiv_q(v, v, G.q); mpz_mul(v, v, G.q); mpz_add(v, v, s); }
+			dss_case(dss, G, y, m, r, v, "s-congruent");
+			mpz_add(w, r, G.q); dss_case(dss, G, y, m, w, v, "rs-congruent");
+		}
+		mpz_add(w, r, G.q); dss_case(dss, G, y, m, w, s, "r-congruent");
+		mpz_sub(v, s, G.q); dss_case(dss, G, y, m, r, v, "s-congruent");
 		// both at the boundary
 		for (int a = 0; a < 4; a++) for (int b = 0; b < 4; b++) { cat_value(a, v, r, G); cat_value(b, w, s, G); dss_case(dss, G, y, m, v, w, "rs-boundary"); }
 		gen_below(w, G.q); mpz_powm(v, G.g, w, G.p); dss_case(dss, G, v, m, r, s, "other-key");
